@@ -51,7 +51,7 @@ FieldPos(P, inputName, field) ==
 
 Ctor(e, ctx, P, env) ==
     LET ty == Lookup(P.decls.types, e.ty)
-        ci == IF e.case = "" THEN 1 ELSE IndexIn(ty.cases, e.case)
+        ci == IF ty.record THEN 1 ELSE IndexIn(ty.cases, e.case)
         decl == ty.cases[ci].fields
         spread == IF IsAbsent(e.spread) THEN Err("missing field") ELSE D(e.spread, ctx, P, env)
         FieldVal(j) == IF Has(e.fields, decl[j].name) THEN D(Lookup(e.fields, decl[j].name).e, ctx, P, env)
@@ -181,16 +181,33 @@ SpendRedeemersU(P, env) ==
     IN  UNION {{[tag |-> SpendTag, index |-> PosAmong(r, all, RefLess),
                  data |-> Enc(D(P.tx.inputs[i].redeemer, "datum", P, env))] : r \in BoundRefs(env, P.tx.inputs[i].key)} :
                i \in {i \in DOMAIN P.tx.inputs : ~IsAbsent(P.tx.inputs[i].redeemer)}}
-PolicyOfBlock(b, P, env) ==
+PoliciesOfBlock(b, P, env) ==
     LET v == MintBlockVal(b, P, env)
-    IN  IF v.k = "assetval" /\ \E c \in DOMAIN v.val : c.k = "defined"
-        THEN (CHOOSE c \in DOMAIN v.val : c.k = "defined").policy ELSE <<>>
+    IN  IF v.k = "assetval" THEN {c.policy : c \in {c \in DOMAIN v.val : c.k = "defined"}} ELSE {}
+\* a redeemer written on a mint / burn block guards every policy of the block that is part of
+\* the mint field (a policy whose quantities cancel out is not)
 MintRedeemers(P, env, mint) ==
     LET pols == {c.policy : c \in DOMAIN mint}
         blocks == P.tx.mints \o P.tx.burns
-    IN  {[tag |-> MintTag, index |-> PosAmong(PolicyOfBlock(blocks[i], P, env), pols, BytesLess),
-          data |-> Enc(D(blocks[i].redeemer, "datum", P, env))] :
-            i \in {i \in DOMAIN blocks : ~IsAbsent(blocks[i].redeemer)}}
+    IN  UNION {{[tag |-> MintTag, index |-> PosAmong(p, pols, BytesLess),
+                 data |-> Enc(D(blocks[i].redeemer, "datum", P, env))] : p \in PoliciesOfBlock(blocks[i], P, env) \cap pols} :
+               i \in {i \in DOMAIN blocks : ~IsAbsent(blocks[i].redeemer)}}
+
+\* reward account a withdrawal names: a stake address denotes itself (29 bytes)
+IsStakeAddr(v) == v.k = "address" /\ Len(v.v) = 29 /\ v.v[1] \in {224, 225, 240, 241}
+WithdrawalOf(w, P, env) ==
+    LET a == D(w.from, "address", P, env)
+        n == D(w.amount, "plain", P, env)
+    IN  IF Bad(a) THEN a ELSE IF Bad(n) THEN n
+        ELSE IF ~IsStakeAddr(a) THEN Unspec
+        ELSE IF n.k # "number" THEN Err("withdrawal amount")
+        ELSE IF ~InU64(n.num) THEN Err("withdrawal out of range")
+        ELSE [k |-> "wd", account |-> a.v, n |-> n.num]
+RewardRedeemers(P, env, wds) ==
+    LET accts == {wds[i].account : i \in DOMAIN wds}
+    IN  {[tag |-> RewardTag, index |-> PosAmong(wds[i].account, accts, BytesLess),
+          data |-> Enc(D(P.tx.withdrawals[i].redeemer, "datum", P, env))] :
+            i \in {i \in DOMAIN wds : ~IsAbsent(P.tx.withdrawals[i].redeemer)}}
 
 DenoteTx(P, env) ==
     LET t == P.tx
@@ -206,7 +223,9 @@ DenoteTx(P, env) ==
         refVals == FlatMap(LAMBDA r : <<D(r.ref, "plain", P, env)>>, t.references)
         redVals == FlatMap(LAMBDA i : IF IsAbsent(i.redeemer) THEN <<>> ELSE <<D(i.redeemer, "datum", P, env)>>, t.inputs)
                    \o FlatMap(LAMBDA m : IF IsAbsent(m.redeemer) THEN <<>> ELSE <<D(m.redeemer, "datum", P, env)>>, t.mints \o t.burns)
-        parts == outs \o <<mint, since, until>> \o signerVals \o metaVals \o refVals \o redVals
+        wds == FlatMap(LAMBDA w : <<WithdrawalOf(w, P, env)>>, t.withdrawals)
+        wdReds == FlatMap(LAMBDA w : IF IsAbsent(w.redeemer) THEN <<>> ELSE <<D(w.redeemer, "datum", P, env)>>, t.withdrawals)
+        parts == outs \o <<mint, since, until>> \o signerVals \o metaVals \o refVals \o redVals \o wds \o wdReds
     IN  IF \E i \in DOMAIN parts : IsErr(parts[i]) THEN [k |-> "error", why |-> (parts[CHOOSE i \in DOMAIN parts : IsErr(parts[i])]).why]
         ELSE IF \E i \in DOMAIN parts : IsUnspec(parts[i]) THEN [k |-> "unspec"]
         ELSE [k |-> "tx",
@@ -221,7 +240,9 @@ DenoteTx(P, env) ==
               metadata |-> [lab \in {metaPairs[i].key.num : i \in DOMAIN metaPairs} |->
                               Metadatum(metaPairs[CHOOSE i \in DOMAIN metaPairs : metaPairs[i].key.num = lab].value)],
               network |-> env.cfg.network,
-              redeemers |-> SpendRedeemersU(P, env) \cup MintRedeemers(P, env, mint.val)]
+              withdrawals |-> [acct \in {wds[i].account : i \in DOMAIN wds} |->
+                                  wds[CHOOSE i \in DOMAIN wds : wds[i].account = acct].n],
+              redeemers |-> SpendRedeemersU(P, env) \cup MintRedeemers(P, env, mint.val) \cup RewardRedeemers(P, env, wds)]
 
 (* ------------------------------------------------------------------------ *)
 (* the observation (driver's projection of the decoded payload) in the same   *)
@@ -240,6 +261,8 @@ ObsTx(d) == [inputs |-> SetOfSeq(d.inputs),
              collateral |-> SetOfSeq(d.collateral),
              metadata |-> [lab \in {d.metadata[i].label : i \in DOMAIN d.metadata} |->
                               d.metadata[CHOOSE i \in DOMAIN d.metadata : d.metadata[i].label = lab].value],
+             withdrawals |-> [acct \in {d.withdrawals[i].account : i \in DOMAIN d.withdrawals} |->
+                                 d.withdrawals[CHOOSE i \in DOMAIN d.withdrawals : d.withdrawals[i].account = acct].n],
              network |-> IF d.network_id.k = "some" /\ FitsInt(d.network_id.n) THEN ToInt(d.network_id.n) ELSE -1,
              redeemers |-> {[tag |-> d.redeemers[i].tag, index |-> d.redeemers[i].index, data |-> Strip(d.redeemers[i].data)] :
                                i \in DOMAIN d.redeemers}]
@@ -261,6 +284,7 @@ Diff(exp, obs) ==
     ELSE IF exp.references # obs.references THEN [field |-> "references", sub |-> ""]
     ELSE IF exp.collateral # obs.collateral THEN [field |-> "collateral", sub |-> ""]
     ELSE IF exp.metadata # obs.metadata THEN [field |-> "metadata", sub |-> ""]
+    ELSE IF exp.withdrawals # obs.withdrawals THEN [field |-> "withdrawals", sub |-> ""]
     ELSE IF exp.network # obs.network THEN [field |-> "network", sub |-> ""]
     ELSE IF exp.redeemers # obs.redeemers THEN [field |-> "redeemers", sub |-> ""]
     ELSE [field |-> "ok", sub |-> ""]
